@@ -299,23 +299,30 @@ Definition subbox_of_present (req : box) (pe : c4) : bool :=
   c4_le {| cn := 0; ch := 0; cw := 0; cc := 0 |} (fst req) && c4_le (snd req) pe.
 
 Section Interleave.
-  (* generic in the consumer command C (with its required IFM box), the producer command P (with the
-     end coordinate of its OFM box) and the coverage test *)
+  (* generic in the consumer command C (with its required IFM box), the commands P of the producer's generator
+     (end_of p = Some e: an NpuStripe of the producer pass with OFM end coordinate e; None: any other command
+     the producer's generator yields, e.g. the stripes of ITS producer or a DMA) and the coverage test *)
   Context {C P R E : Type}.
   Variable req_of : C -> R.
-  Variable end_of : P -> E.
+  Variable end_of : P -> option E.
   Variable covers : R -> E -> bool.
 
   Inductive event := EProd (p : P) | ECons (c : C).
 
-  (* `for prev_cmd in prev_cmd_gen: yield prev_cmd; ifm_present.end_coord = prev_cmd.ofm_box.end_coord;
-      if ifm_required.is_subbox_of(ifm_present): break` -- the generator object keeps its position *)
+  (* `for prev_cmd in prev_cmd_gen: yield prev_cmd;
+        if prev_cmd.is_npu_pass_command() and prev_cmd.ps == producer_op.parent_ps:
+            ifm_present.end_coord = prev_cmd.ofm_box.end_coord
+            if ifm_required.is_subbox_of(ifm_present): break`  -- the generator object keeps its position *)
   Fixpoint pull (prod : list P) (pe : E) (r : R) : list P * list P * E :=
     match prod with
     | [] => ([], [], pe)
     | p :: t =>
-        if covers r (end_of p) then ([p], t, end_of p)
-        else let '(y, rest, pe') := pull t (end_of p) r in (p :: y, rest, pe')
+        match end_of p with
+        | Some e =>
+            if covers r e then ([p], t, e)
+            else let '(y, rest, pe') := pull t e r in (p :: y, rest, pe')
+        | None => let '(y, rest, pe') := pull t pe r in (p :: y, rest, pe')
+        end
     end.
 
   Fixpoint interleave (cons : list C) (prod : list P) (pe : E) : list event :=
@@ -334,8 +341,9 @@ Arguments ECons {C P}.
 Record ccmd := { cm_ofm : box; cm_ifm : box; cm_pt : Z; cm_pb : Z }.
 
 (* the instance used by the generator: 4-D boxes *)
-Definition interleave4 (cons : list ccmd) (prod : list box) : list (@event ccmd box) :=
-  interleave cm_ifm snd subbox_of_present cons prod {| cn := 0; ch := 0; cw := 0; cc := 0 |}.
+Definition interleave4 (cons : list ccmd) (prod : list (bool * box)) : list (@event ccmd (bool * box)) :=
+  interleave cm_ifm (fun p : bool * box => if fst p then Some (snd (snd p)) else None) subbox_of_present cons prod
+             {| cn := 0; ch := 0; cw := 0; cc := 0 |}.
 
 (* ------------------------------------------------------------------ rolling buffer contents (semantics) *)
 (* the buffer as a map slot -> feature-map row currently stored there (-1: nothing);
@@ -433,7 +441,7 @@ Definition req_1d (c : Z * Z * (Z * Z * Z * Z)) : Z * Z :=
   let '(_, _, (b0, b1, _, _)) := c in (b0, b1).
 Definition covers_1d (r : Z * Z) (pe : Z) : bool := (0 <=? fst r) && (snd r <=? pe).
 Definition cascade_events (g : geom) (hc hp : Z) :=
-  interleave req_1d (fun p : Z * Z => snd p) covers_1d (cons_cmds_1d g hc) (stripes_1d 0 (g_in g) hp) 0.
+  interleave req_1d (fun p : Z * Z => Some (snd p)) covers_1d (cons_cmds_1d g hc) (stripes_1d 0 (g_in g) hp) 0.
 
 (* stripe_input.height of the consumer (scheduler.create_scheduler_info) and the rolling buffer height *)
 Definition stripe_input_h (g : geom) (hc : Z) : Z :=
